@@ -33,10 +33,13 @@ def sh(cmd, cwd=None, env=None, timeout=7200):
     return p.returncode, (p.stdout or '') + (p.stderr or '')
 
 
+BASE = 'HEAD'
+
+
 def new_wt():
     wt = Path(tempfile.mkdtemp(prefix='suitewt_'))
     shutil.rmtree(wt)
-    rc, o = sh(['git', '-C', '/repo', 'worktree', 'add', '--detach', str(wt), 'HEAD'])
+    rc, o = sh(['git', '-C', '/repo', 'worktree', 'add', '--detach', str(wt), BASE])
     assert rc == 0, o
     return wt
 
@@ -62,7 +65,10 @@ def main():
     ap.add_argument('pattern')
     ap.add_argument('--jobs', type=int, default=2)
     ap.add_argument('--redo', action='store_true')
+    ap.add_argument('--base', default='HEAD', help='commit of /repo the patches were written against (default HEAD)')
     args = ap.parse_args()
+    global BASE
+    BASE = args.base
     seeds = []
     for d in sorted((VERIF / 'seeded').iterdir()):
         if not fnmatch.fnmatch(d.name, args.pattern) or not (d / 'patch.diff').exists():
@@ -109,7 +115,7 @@ def main():
             if rc == 0:
                 for s in ids:
                     record(s, {'exit': 0, 'summary': summary, 'wall_s': wall,
-                               'how': f'complete suite on /repo HEAD with {len(ids)} seeded patches touching disjoint code applied together', 'batch': ids})
+                               'how': f'complete suite on /repo {BASE} with {len(ids)} seeded patches touching disjoint code applied together', 'batch': ids})
                 return
             # attribute the failures
             for s in ids:
